@@ -8,6 +8,7 @@ import (
 	"net"
 	"net/http"
 	"sync"
+	"sync/atomic"
 	"time"
 
 	"google.golang.org/grpc"
@@ -77,6 +78,50 @@ func Shutdown(timeout time.Duration) {
 	wg.Wait()
 }
 
+// httpServer is an http.Server whose Shutdown also waits for the requests
+// which have taken over their connection (websocket tunnels).
+// http.Server.Shutdown does not know about hijacked connections: it returns
+// while they are still being served and the exit of the process cuts them.
+type httpServer struct {
+	*http.Server
+
+	// inflight is the number of requests which are being served,
+	// the hijacked ones included.
+	inflight int64
+}
+
+func newHTTPServer(srv *http.Server) *httpServer {
+	s := &httpServer{Server: srv}
+	h := srv.Handler
+	if h == nil {
+		h = http.DefaultServeMux
+	}
+	srv.Handler = http.HandlerFunc(func(w http.ResponseWriter, r *http.Request) {
+		atomic.AddInt64(&s.inflight, 1)
+		defer atomic.AddInt64(&s.inflight, -1)
+		h.ServeHTTP(w, r)
+	})
+	return s
+}
+
+// Shutdown stops the server like http.Server.Shutdown and then gives the
+// requests which run on hijacked connections the rest of the time to finish.
+func (s *httpServer) Shutdown(ctx context.Context) error {
+	if err := s.Server.Shutdown(ctx); err != nil {
+		return err
+	}
+	t := time.NewTicker(10 * time.Millisecond)
+	defer t.Stop()
+	for atomic.LoadInt64(&s.inflight) > 0 {
+		select {
+		case <-ctx.Done():
+			return ctx.Err()
+		case <-t.C:
+		}
+	}
+	return nil
+}
+
 func ListenAndServeHTTP(l config.Listen, h http.Handler, cfg *tls.Config) error {
 	ln, err := ListenTCP(l, cfg)
 	if err != nil {
@@ -91,7 +136,7 @@ func ListenAndServeHTTP(l config.Listen, h http.Handler, cfg *tls.Config) error 
 		IdleTimeout:  l.IdleTimeout,
 		TLSConfig:    cfg,
 	}
-	return serve(ln, srv)
+	return serve(ln, newHTTPServer(srv))
 }
 
 func ListenAndServePrometheus(l config.Listen, pcfg config.Prometheus, cfg *tls.Config) error {
@@ -116,7 +161,7 @@ func ListenAndServePrometheus(l config.Listen, pcfg config.Prometheus, cfg *tls.
 		IdleTimeout:  l.IdleTimeout,
 		TLSConfig:    cfg,
 	}
-	return serve(ln, srv)
+	return serve(ln, newHTTPServer(srv))
 }
 
 func ListenAndServeHTTPSTCPSNI(l config.Listen, h http.Handler, p tcp.Handler, cfg *tls.Config, m tcpproxy.Matcher) error {
@@ -161,14 +206,14 @@ func ListenAndServeHTTPSTCPSNI(l config.Listen, h http.Handler, p tcp.Handler, c
 	})
 
 	// wrap TargetListener in a tls terminating version for HTTPS
-	tps.ServeLater(tls.NewListener(httpsListener, cfg), &http.Server{
+	tps.ServeLater(tls.NewListener(httpsListener, cfg), newHTTPServer(&http.Server{
 		Addr:         l.Addr,
 		Handler:      h,
 		ReadTimeout:  l.ReadTimeout,
 		WriteTimeout: l.WriteTimeout,
 		IdleTimeout:  l.IdleTimeout,
 		TLSConfig:    cfg,
-	})
+	}))
 
 	// tcpproxy creates its own listener from the configuration above so we can
 	// safely pass nil here, nonetheless we are passing `httpsListener` to
